@@ -11,13 +11,7 @@
   EVERY reachable state of the instance, i.e. every schedule of every length — is the complete
   proof for that usage.  Closure computed and re-checked by Lean's kernel (`decide +kernel`).
 
-  The code as it is violates the property in two ways; for the affected instances the theorem is
-  `*_safe_modulo_*` (everything else holds) plus a witness theorem proving the violation reachable:
-    * `late_cancel_value_uaf`, `cancel_*_uaf`: a stop request that arrives after the future's
-      continuation freed the heap block but before it deregistered the stop callback runs
-      `abandon()` on the freed block;
-    * `connect_stop_drop_terminates`: connect, stop request, destroy-without-start reaches
-      `std::terminate()` in `drop()`.
+  Every instance theorem states the FULL property `safe` (read it in `safe_spelled`).
 -/
 import UnifexModel.Proto.SpawnFuture
 
@@ -104,7 +98,7 @@ theorem safe_spelled (cfg : Config) (s : St) (h : safe cfg s = true) :
       · cases hos : s.opStop <;> cases haw : s.abandonWon <;> cases hds : s.dropSawInit <;>
           simp_all
 
-/-! ### instances in which the code satisfies the whole property -/
+/-! ### await / drop / connect-then-destroy without a canceller -/
 
 theorem await_value_safe : ∀ s, Reach (sys cfgAwaitValue) s → safe cfgAwaitValue s = true :=
   safe_of_check _ { coded with M := 251 } 400 _ (by decide +kernel)
@@ -122,29 +116,14 @@ theorem drop_done_safe : ∀ s, Reach (sys cfgDropDone) s → safe cfgDropDone s
 theorem connect_drop_value_safe : ∀ s, Reach (sys cfgConnectDropValue) s → safe cfgConnectDropValue s = true :=
   safe_of_check _ { coded with M := 251 } 400 _ (by decide +kernel)
 
-/-! ### stop requested only after the operation finished: result delivered; but use-after-free -/
+/-! ### stop requested only after the operation finished: the result is delivered -/
 
-/-- everything except "never used after deletion" holds — in particular the available result is
-    delivered although stop was requested (`late` clause of `safeRest`) -/
-theorem late_cancel_value_safe_modulo_uaf :
-    ∀ s, Reach (sys cfgLateCancelValue) s → safeModUaf cfgLateCancelValue s = true :=
+/-- T2 requests stop only after T1 has finished: in every schedule the future delivers the
+    operation's value although stop was requested (`late` clause of `safe`), and nothing is touched
+    after the block was freed. -/
+theorem late_cancel_value_safe :
+    ∀ s, Reach (sys cfgLateCancelValue) s → safe cfgLateCancelValue s = true :=
   safe_of_check _ { coded with M := 251 } 400 _ (by decide +kernel)
-
-/-- VIOLATION in the code as it is (witness schedule): T1 completes, T0's `start()` finds the event
-    set and runs the continuation, which frees the block; T2's stop request then runs `abandon()` —
-    still registered — on the freed block. -/
-theorem late_cancel_value_uaf :
-    ∃ s, Reach (sys cfgLateCancelValue) s ∧ (s.uaf && final cfgLateCancelValue s) = true :=
-  reach_of_run _ [1, 1, 0, 0, 1, 0, 1, 0, 1, 0, 1, 0, 0, 0, 0, 0, 1, 0] _ (by decide +kernel)
-
-theorem late_cancel_value_not_safe :
-    ¬ ∀ s, Reach (sys cfgLateCancelValue) s → safe cfgLateCancelValue s = true := by
-  intro h
-  obtain ⟨s, hr, hu⟩ := late_cancel_value_uaf
-  have h1 := (safe_spelled _ _ (h s hr)).1
-  simp only [Bool.and_eq_true] at hu
-  rw [h1] at hu
-  exact absurd hu.1 (by decide)
 
 /-! ### spawn_detached: state deleted once by the completing thread; terminates only on error -/
 
@@ -175,5 +154,10 @@ example : ∃ s, Reach (sys cfgDropValue) s ∧
 /-- an awaited future delivers the operation's error -/
 example : ∃ s, Reach (sys cfgAwaitError) s ∧ (final cfgAwaitError s && decide (s.out = 2)) = true :=
   reach_of_run _ [1, 1, 0, 0, 1, 0, 0, 0, 0, 0, 0, 0, 0] _ (by decide +kernel)
+
+/-- a stop request that comes after the operation finished: the value is delivered all the same -/
+example : ∃ s, Reach (sys cfgLateCancelValue) s ∧
+    (final cfgLateCancelValue s && decide (s.out = 1) && s.fStop) = true :=
+  reach_of_run _ [1, 1, 0, 0, 1, 0, 0, 0, 1, 0, 1, 0, 1, 0, 1, 0] _ (by decide +kernel)
 
 end Unifex.Props.C09
